@@ -1176,3 +1176,94 @@ V('c19-twin-gate-flipped', 'C19', 'R19.1', SIEVEM,
                         else:
                             resp = Response(Condition.NO, text='Bad command.')''',
   expect='silent')
+
+# ---------------------------------------------------------------- C13
+SEARCHPY = 'pymap/search.py'
+SKEYPY = 'pymap/parsing/specials/searchkey.py'
+V('c13-smaller-not-dispatched', 'C13', 'R13.1', SEARCHPY,
+  '''        elif key_name == b'SMALLER':
+            return SizeSearchCriteria(key.filter_int, '<', params)
+''', '')
+V('c13-parser-new-key', 'C13', 'R13.1', SKEYPY,
+  "b'UNFLAGGED', b'UNSEEN', b'DRAFT', b'UNDRAFT'):",
+  "b'UNFLAGGED', b'UNSEEN', b'DRAFT', b'UNDRAFT', b'UNRECENT'):")
+V('c13-unseen-polarity', 'C13', 'R13.2', SEARCHPY,
+  '''        elif key_name == b'UNSEEN':
+            return HasFlagSearchCriteria(Seen, False, params)''',
+  '''        elif key_name == b'UNSEEN':
+            return HasFlagSearchCriteria(Seen, True, params)''')
+V('c13-old-wrong-flag', 'C13', 'R13.2', SEARCHPY,
+  '''        elif key_name == b'OLD':
+            return HasFlagSearchCriteria(Recent, False, params)''',
+  '''        elif key_name == b'OLD':
+            return HasFlagSearchCriteria(Seen, True, params)''')
+V('c13-since-gt', 'C13', 'R13.2', SEARCHPY,
+  "return DateSearchCriteria(key.filter_datetime, '>=', params)",
+  "return DateSearchCriteria(key.filter_datetime, '>', params)")
+V('c13-senton-internal', 'C13', 'R13.2', SEARCHPY,
+  "return HeaderDateSearchCriteria(key.filter_datetime, '=', params)",
+  "return DateSearchCriteria(key.filter_datetime, '=', params)")
+V('c13-before-lte', 'C13', 'R13.2', SEARCHPY,
+  '''        if self.op == '<':  # BEFORE
+            return msg_date < self.when''',
+  '''        if self.op == '<':  # BEFORE
+            return msg_date <= self.when''')
+V('c13-larger-swapped', 'C13', 'R13.2', SEARCHPY,
+  '''        elif self.op == '>':
+            return size > self.size''', '''        elif self.op == '>':
+            return self.size > size''')
+V('c13-new-ignores-seen', 'C13', 'R13.2', SEARCHPY,
+  'return Recent in flags and Seen not in flags', 'return Recent in flags')
+V('c13-hasflag-table', 'C13', 'R13.2', SEARCHPY,
+  'return (has_flag and expected) or (not expected and not has_flag)',
+  'return (has_flag and expected) or (not expected)')
+V('c13-any-instead-of-all', 'C13', 'R13.3', SEARCHPY,
+  '''        return all(crit.matches(msg_seq, msg, loaded_msg)
+                   for crit in self.all_criteria)''',
+  '''        return any(crit.matches(msg_seq, msg, loaded_msg)
+                   for crit in self.all_criteria)''')
+V('c13-or-as-and', 'C13', 'R13.3', SEARCHPY,
+  '''        return (self.left.matches(msg_seq, msg, loaded_msg)
+                or self.right.matches(msg_seq, msg, loaded_msg))''',
+  '''        return (self.left.matches(msg_seq, msg, loaded_msg)
+                and self.right.matches(msg_seq, msg, loaded_msg))''')
+V('c13-not-dropped', 'C13', 'R13.3', SEARCHPY,
+  'return not self.key.matches(msg_seq, msg, loaded_msg)',
+  'return self.key.matches(msg_seq, msg, loaded_msg)')
+V('c13-larger-metadata', 'C13', 'R13.4', SKEYPY,
+  "elif key_name in (b'BODY', b'TEXT', b'LARGER', b'SMALLER'):",
+  "elif key_name in (b'BODY', b'TEXT', b'SMALLER'):")
+V('c13-header-requirement-dropped', 'C13', 'R13.4', SKEYPY,
+  "b'CC', b'FROM', b'SUBJECT', b'TO', b'HEADER'):",
+  "b'CC', b'FROM', b'SUBJECT', b'TO'):")
+V('c13-prefilter-constant', 'C13', 'R13.5', SEARCHPY,
+  '''        except StopIteration:
+            return SequenceSet.all()
+        else:
+            return seqset_crit.seq_set''', '''        except StopIteration:
+            return SequenceSet.all()
+        else:
+            return SequenceSet.build([1])''')
+V('c13-report-seq-under-uid', 'C13', 'R13.6', STATE,
+  '''            if cmd.uid:
+                msg_ids.append(msg.uid)
+            else:
+                msg_ids.append(msg_seq)''', '''            if cmd.uid:
+                msg_ids.append(msg_seq)
+            else:
+                msg_ids.append(msg_seq)''')
+# twins
+V('c13-twin-ifexp', 'C13', 'R13.6', STATE,
+  '''            if cmd.uid:
+                msg_ids.append(msg.uid)
+            else:
+                msg_ids.append(msg_seq)''',
+  '''            msg_ids.append(msg.uid if cmd.uid else msg_seq)''',
+  expect='silent')
+V('c13-twin-all-loop', 'C13', 'R13.3', SEARCHPY,
+  '''        return all(crit.matches(msg_seq, msg, loaded_msg)
+                   for crit in self.all_criteria)''',
+  '''        for crit in self.all_criteria:
+            if not crit.matches(msg_seq, msg, loaded_msg):
+                return False
+        return True''', expect='silent')
